@@ -68,3 +68,66 @@ pub(crate) fn insert_price_recorder_lenient<'ctx>(
         RECORDED += 1;
     }
 }
+
+use crate::report::book_keeping::verif_kani::{commodity, dec16};
+use rust_decimal::Decimal as D;
+
+fn day(off: u8) -> NaiveDate {
+    NaiveDate::from_ymd_opt(2024, 3, 1 + off as u32).unwrap()
+}
+
+fn dec_small(scale: u32) -> D {
+    let lo = vk::u8();
+    vk::assume(lo > 0);
+    D::from_parts(lo as u32, 0, 0, false, scale)
+}
+
+/// C09-H1': as-of selection. The repository state build_naive produces for one pair (prices of X in Y,
+/// two dated records sorted by date, entered below the sort), queried at a symbolic day:
+/// the rate used is the most recent one dated on or before the query day; none if all are later;
+/// Y in Y is the identity.
+vk_proof_models! { unwind 4; fn c09_asof_direct() {
+    let d1 = vk::below(8);
+    let d2 = vk::below(8);
+    let q = vk::below(8);
+    let r1 = dec_small(1);
+    let r2 = dec_small(1);
+    let ledger = vk::bool();
+    vk::assume(d1 < d2); // same-day duplicates of one pair are not ordered by the statement
+    vk::note(&|| format!("X in Y: day{} -> {}, day{} -> {}; query day{}", d1, r1, d2, r2, q));
+    let (x, y) = (commodity(0), commodity(1));
+    let source = if ledger { PriceSource::Ledger } else { PriceSource::PriceDB };
+    let mut rates = Vec::with_capacity(2);
+    rates.push((day(d1), r1));
+    rates.push((day(d2), r2));
+    let mut inner: HashMap<Commodity<'static>, Entry> = HashMap::new();
+    inner.insert(x, Entry(source, rates));
+    let mut records: HashMap<Commodity<'static>, HashMap<Commodity<'static>, Entry>> = HashMap::new();
+    records.insert(y, inner);
+    let repo = NaivePriceRepository { records };
+    let table = repo.compute_price_table(y, day(q));
+    // identity
+    match table.get(&y) {
+        Some(WithDistance(_, one)) => assert!(*one == D::ONE, "C09: a commodity in itself is not the identity"),
+        None => {}
+    }
+    let got = table.get(&x).map(|w| w.1);
+    let want = if d2 <= q { Some(r2) } else if d1 <= q { Some(r1) } else { None };
+    match (got, want) {
+        (None, None) => {}
+        (Some(g), Some(w)) => assert!(g == w, "C09: conversion does not use the most recent price dated on or before the query date"),
+        (Some(_), None) => panic!("C09: conversion uses a price dated after the query date"),
+        (None, Some(_)) => panic!("C09: an available price dated on or before the query date is not used"),
+    }
+    vk_cover!(q == d2, "query on the date of the newest price");
+    vk_cover!(q == d1, "query on the date of the oldest price");
+    vk_cover!(q < d1, "query before every price");
+    core::mem::forget(table);
+    core::mem::forget(repo);
+} }
+
+#[cfg(all(test, not(kani)))]
+#[test]
+fn verif_replay_entry() {
+    crate::vk::replay_dispatch(&[("c09_asof_direct", c09_asof_direct as fn())]);
+}
